@@ -113,7 +113,7 @@ def gen_c09(rng, n, maxlen):
 
 GENS = {"C05": gen_c05, "C06": gen_c06, "C07": gen_c07, "C09": gen_c09}
 SIZES = {  # (quick n, quick maxlen, thorough n, thorough maxlen)
-    "C05": (12000, 6, 200000, 24), "C06": (8000, 3, 120000, 6), "C07": (10000, 3, 150000, 6), "C09": (4000, 5, 40000, 12)}
+    "C05": (12000, 6, 120000, 24), "C06": (3000, 3, 40000, 5), "C07": (4000, 3, 50000, 5), "C09": (3000, 5, 30000, 10)}
 KNOWN_D = {"C05": "D1", "C06": "D2", "C07": "D3"}
 
 
